@@ -84,7 +84,13 @@ def run(run, replay=None):
             fi = rng.randint(0, len(t.changes[ci - 1].files)) if ci else 0
             lvl = 0 if ci == 0 else (1 if fi == 0 else 2)
             r = rng.random()
-            if r < 0.5:
+            if r < 0.12:
+                # change the SHAPE only: an extra trailing change / file (possibly an empty one)
+                if ci and rng.random() < 0.6:
+                    h.addf(b, ci, **(domgen.rand_container_attrs(rng, 2) if rng.random() < 0.5 else {}))
+                else:
+                    h.addc(b, **(domgen.rand_container_attrs(rng, 1) if rng.random() < 0.5 else {}))
+            elif r < 0.5:
                 attrs = domgen.rand_container_attrs(rng, lvl)
                 if not attrs:
                     continue
